@@ -79,28 +79,47 @@ Definition fd_checked (m : meth) (p : pmode) (c dx : T) (f : list T) : outcome :
   else if negb (bnd_in_range (length f) (boundary_tab p m)) then IndexErr
   else Ok (fd m p c dx f).
 
-(* ---- reference: textbook stencil on the extended array (base modes) ---- *)
-(* value of the extension of f at integer position i in -1 .. n *)
-Definition ext (p : pmode) (c : T) (f : list T) (i : Z) : T :=
-  let n := Z.of_nat (length f) in
-  let at_ (k : Z) := nth (Z.to_nat k) f nzero in
-  if ((0 <=? i) && (i <? n))%Z then at_ i
-  else match p with
+(* ---- reference: textbook stencil on the extended array (base modes) ----
+   [ext p c f j] is the value of the extension of f at position j-1, for
+   j = 0 .. n+1 (one cell beyond either end is all a 3-point stencil needs). *)
+Definition left_ext (p : pmode) (c : T) (f : list T) : T :=
+  match p with
   | PConstant => c
-  | PSymmetric | POrder0 => if (i <? 0)%Z then at_ 0%Z else at_ (n - 1)%Z
-  | PPeriodic => if (i <? 0)%Z then at_ (n - 1)%Z else at_ 0%Z
-  | POrder1 => if (i <? 0)%Z then of_Z 2 * at_ 0%Z - at_ 1%Z
-               else of_Z 2 * at_ (n - 1)%Z - at_ (n - 2)%Z
-  | POrder2 => if (i <? 0)%Z then of_Z 3 * at_ 0%Z - of_Z 3 * at_ 1%Z + at_ 2%Z
-               else of_Z 3 * at_ (n - 1)%Z - of_Z 3 * at_ (n - 2)%Z + at_ (n - 3)%Z
+  | PSymmetric | POrder0 => get f (Lo 0)
+  | PPeriodic => get f (Hi 1)
+  | POrder1 => of_Z 2 * get f (Lo 0) - get f (Lo 1)
+  | POrder2 => of_Z 3 * get f (Lo 0) - of_Z 3 * get f (Lo 1) + get f (Lo 2)
   | _ => nzero
   end.
-Definition stencil (m : meth) (g : Z -> T) (i : Z) : T :=
+Definition right_ext (p : pmode) (c : T) (f : list T) : T :=
+  match p with
+  | PConstant => c
+  | PSymmetric | POrder0 => get f (Hi 1)
+  | PPeriodic => get f (Lo 0)
+  | POrder1 => of_Z 2 * get f (Hi 1) - get f (Hi 2)
+  | POrder2 => of_Z 3 * get f (Hi 1) - of_Z 3 * get f (Hi 2) + get f (Hi 3)
+  | _ => nzero
+  end.
+Definition ext (p : pmode) (c : T) (f : list T) (j : nat) : T :=
+  match j with
+  | O => left_ext p c f
+  | S k => if (k <? length f)%nat then nth k f nzero else right_ext p c f
+  end.
+(* row i of the textbook scheme reads positions i-1, i, i+1 = ext j for j = i, i+1, i+2 *)
+Definition stencil (m : meth) (e : nat -> T) (i : nat) : T :=
   match m with
-  | Central => (g (i + 1)%Z - g (i - 1)%Z) / of_Z 2
-  | Forward => g (i + 1)%Z - g i
-  | Backward => g i - g (i - 1)%Z
+  | Central => (e (S (S i)) - e i) / of_Z 2
+  | Forward => e (S (S i)) - e (S i)
+  | Backward => e (S i) - e i
   end.
 Definition fd_ref (m : meth) (p : pmode) (c dx : T) (f : list T) : list T :=
-  map (fun k => stencil m (ext p c f) (Z.of_nat k) / dx) (seq 0 (length f)).
+  map (fun i => stencil m (ext p c f) i / dx) (seq 0 (length f)).
+Definition is_base (p : pmode) : bool :=
+  match p with PConstant | PSymmetric | PPeriodic | POrder0 | POrder1 | POrder2 => true | _ => false end.
+(* middle entries 1 .. n-2, by the same window recursion as [interior] *)
+Fixpoint midl (f : list T) : list T :=
+  match f with
+  | _ :: ((b :: _ :: _) as f') => b :: midl f'
+  | _ => []
+  end.
 End Model.
